@@ -9,6 +9,10 @@ From SK Require Import model.C05_Model proof.C05_Proof proof.C05_Glue proof.C05_
 Import ListNotations.
 Local Open Scope Z_scope.
 
+Section WithThr.
+Context {TH : Thr}.
+
+
 (** no hydrogen atom on either side *)
 Definition noHb (T : its) : bool :=
   forallb (fun p => negb (N.eqb (a_el (iG (snd p))) EL_H) && negb (N.eqb (a_el (iH (snd p))) EL_H)) (gnodes T).
@@ -259,3 +263,5 @@ Proof.
   induction (glued_of strat host (prep_default inv T)) as [|G r IH]; simpl; [reflexivity|].
   rewrite (explicit_h_nohp G (Hall G (or_introl eq_refl))), IH; [reflexivity|]. intros G' I. apply Hall. right. exact I.
 Qed.
+
+End WithThr.
